@@ -89,9 +89,9 @@ func execFnCase(c fnCase, s core.Source) (res core.Result) {
 	return execFnOther(c, s)
 }
 
-func execConcat[E any](c fnCase, cd codec[E]) (res core.Result) {
+func execConcat[E any](c fnCase, cd lib.Codec[E]) (res core.Result) {
 	n := lib.Notation()
-	ints := cd.name == "int" // the natural order is defined for one ordered type
+	ints := cd.Name == "int" // the natural order is defined for one ordered type
 	arr := func(l col.ListLike[E]) []int { return decAll(cd, l.AsArray()) }
 	{
 		L := col.List[E](n)
@@ -125,8 +125,8 @@ func execConcat[E any](c fnCase, cd codec[E]) (res core.Result) {
 		// purity: mutate the result, then the operands -- in place first (a shared backing array
 		// survives only until the next structural change), then structurally
 		if r.GetSize() > 0 {
-			r.SetValue(1, cd.enc(98))
-			r.SetValue(-1, cd.enc(97))
+			r.SetValue(1, cd.Enc(98))
+			r.SetValue(-1, cd.Enc(97))
 			r.ReverseValues()
 			if ints {
 				r.SortValues()
@@ -138,11 +138,11 @@ func execConcat[E any](c fnCase, cd codec[E]) (res core.Result) {
 		}
 		inplace := arr(r)
 		if a.GetSize() > 0 {
-			a.SetValue(1, cd.enc(76))
+			a.SetValue(1, cd.Enc(76))
 			a.ReverseValues()
 		}
 		if b.GetSize() > 0 {
-			b.SetValue(-1, cd.enc(75))
+			b.SetValue(-1, cd.Enc(75))
 			if ints {
 				b.SortValues()
 			}
@@ -157,9 +157,9 @@ func execConcat[E any](c fnCase, cd codec[E]) (res core.Result) {
 			b = L.MakeFromArray(encAll(cd, c.B))
 		}
 		r = L.Concatenate(a, b)
-		r.AppendValue(cd.enc(99))
+		r.AppendValue(cd.Enc(99))
 		if r.GetSize() > 1 {
-			r.SetValue(1, cd.enc(98))
+			r.SetValue(1, cd.Enc(98))
 			r.RemoveValue(-2)
 		}
 		if !lib.EqInts(arr(a), c.A) || !lib.EqInts(arr(b), bvals) {
@@ -167,9 +167,9 @@ func execConcat[E any](c fnCase, cd codec[E]) (res core.Result) {
 			return
 		}
 		snapshot := arr(r)
-		a.AppendValue(cd.enc(77))
+		a.AppendValue(cd.Enc(77))
 		if a.GetSize() > 1 {
-			a.SetValue(1, cd.enc(76))
+			a.SetValue(1, cd.Enc(76))
 		}
 		b.RemoveAll()
 		if !lib.EqInts(arr(r), snapshot) {
@@ -180,7 +180,7 @@ func execConcat[E any](c fnCase, cd codec[E]) (res core.Result) {
 		if c.Alias {
 			res.Classes = append(res.Classes, "aliased")
 		}
-		res.Classes = append(res.Classes, "fn-Concatenate", "elem-"+cd.name)
+		res.Classes = append(res.Classes, "fn-Concatenate", "elem-"+cd.Name)
 	}
 	return
 }
